@@ -257,3 +257,21 @@ def s2_unescape_of_reverse(data):
 
 _add("s2_unescape_of_reverse", Tmpl((1, "neutral2"), b"unescape('reverse(%27", (2, "plain"), b"%27)')", (1, "neutral2")), s2_unescape_of_reverse,
      funcs=["multidecoder.decoders.javascript.find_unescape", "multidecoder.decoders.reverse.find_reverse"])
+
+
+def s2_reverse_of_reverse(data):
+    # the same encoding twice: P + reverse(')"' a b '"(esrever') + S -> reverse("ba") -> ab
+    md = Multidecoder(decoders=[find_reverse, find_concat, find_executable_name])
+    root = md.scan(data)
+    e0 = data.index(b"reverse('")
+    inner = list(data[e0 + 9: e0 + 9 + 13])  # )"xy"(esrever
+    plain1 = inner[::-1]  # reverse("yx")
+    payload = plain1[9:11][::-1]
+    r = chain_ok(data, root, [("string", "reverse", plain1), ("string", "reverse", payload)], e0, 9 + 13 + 2, payload)
+    if r is not True:
+        return r, True
+    return True, True
+
+
+_add("s2_reverse_of_reverse", Tmpl((1, "neutral2"), b"reverse(')\"", (2, "plain"), b"\"(esrever')", (1, "neutral2")), s2_reverse_of_reverse,
+     funcs=["multidecoder.decoders.reverse.find_reverse"])
